@@ -35,7 +35,9 @@ type partialTarget struct {
 	close func()
 }
 
-var faults = []string{"serving-keypair-garbage", "client-ca-garbage", "endpoint-unusable"}
+// "cluster-delete-recreate" is not a fault: the object is deleted and created again under the same name with other values
+// (controller only); nothing of the old bucket may survive in either direction.
+var faults = []string{"serving-keypair-garbage", "client-ca-garbage", "endpoint-unusable", "cluster-delete-recreate"}
 
 func applyFault(o *proxyv1alpha1.UpstreamCluster, fault string) {
 	switch fault {
@@ -66,7 +68,7 @@ func partialSyncScenarios(r *vkit.R) {
 	for _, f := range faults {
 		for _, raise := range []bool{false, true} {
 			for _, ctrl := range []bool{false, true} {
-				if f == "endpoint-unusable" && !ctrl {
+				if (f == "endpoint-unusable" || f == "cluster-delete-recreate") && !ctrl {
 					continue // a bare ClusterInfo built without a rest config skips the endpoint step
 				}
 				for _, p := range [][2][2]int32{{{2, 2}, {1000, 1000}}, {{5, 3}, {2000, 2000}}} {
@@ -180,8 +182,20 @@ func partialSyncScenarios(r *vkit.R) {
 		}
 		o := base(nw[0], nw[1])
 		applyFault(o, k.fault)
+		recreate := k.fault == "cluster-delete-recreate"
+		if recreate {
+			gw.Delete(name)
+		}
 		err := tg.apply(o)
 		syncDone := bed.Now()
+		if recreate {
+			if err != nil {
+				r.Inconclusive(fmt.Sprintf("re-creating the cluster failed: %v", err))
+				return
+			}
+			err = fmt.Errorf("(none: the object was deleted and created again)")
+			r.Count("recreate_cases", 1)
+		}
 		if err == nil {
 			// the other part was accepted: an ordinary reconfiguration, covered elsewhere
 			r.Count("partial_sync_moot(fault_did_not_fail_the_sync)_"+k.fault, 1)
